@@ -30,6 +30,8 @@ FLAVOURS = {
                       "-fno-sanitize-recover=all", "-D" + GUARD, "-DUSE_ASSERT_EXCEPTIONS"]),
     # baseline semantics: plain assert() aborts, hooks off
     "abrt": (["g++"], ["-O1"]),
+    # release semantics: assertions compiled out (NDEBUG), hooks on -- what a user of a release build sees
+    "rel": (["g++"], ["-O1", "-DNDEBUG", "-D" + GUARD]),
     # for valgrind memcheck
     "vg": (["g++"], ["-O0", "-D" + GUARD, "-DUSE_ASSERT_EXCEPTIONS"]),
 }
